@@ -63,7 +63,8 @@ impl CfgSpec {
                             None => q,
                         }
                     }),
-                    m.trans.iter().map(|(t, m)| (crate::ttmap::conc(*t), *m)).collect::<Vec<_>>(),
+                    // sorted by the concrete token type, as ScannerMode::new demands (the concretisation is not monotone)
+                    { let mut tr = m.trans.iter().map(|(t, m)| (crate::ttmap::conc(*t), *m)).collect::<Vec<_>>(); tr.sort(); tr },
                 )
             })
             .collect()
@@ -90,12 +91,7 @@ impl CfgSpec {
             let pats: Vec<String> = self.modes[0].pats.iter().map(|p| p.re.print_top(syms)).collect();
             ScannerBuilder::new().add_patterns(pats).build()
         } else {
-            let b = ScannerBuilder::new().add_scanner_modes(&self.to_modes(syms));
-            if cached {
-                b.build()
-            } else {
-                b.build_uncached()
-            }
+            crate::parse::build_via(&self.to_modes(syms), cached)
         }
     }
 }
